@@ -13,6 +13,7 @@ import (
 
 	"verif/batch"
 	"verif/ev"
+	"verif/oneline"
 	"verif/oracle/htmltok"
 	"verif/tc"
 	"verif/tgen"
@@ -27,6 +28,11 @@ func TestMain(m *testing.M) {
 type Case struct {
 	File *tgen.File `json:"file"`
 	Args tgen.Args  `json:"args"`
+}
+
+// SrcCase is a template given as source text (the enumerated families).
+type SrcCase struct {
+	Source ev.QStr `json:"source"`
 }
 
 var recCompile = ev.New("C02", "c02.compiles",
@@ -70,6 +76,10 @@ func canon(out []byte) (string, error) { return htmltok.Canon(out) }
 // decideCompile: accepted => generated Go type-checks.
 func decideCompile(f *tgen.File) (accepted bool, err error) {
 	src, _ := tgen.Print(f, "P")
+	return decideCompileSrc(src, map[string]string{"helpers.go": tgen.HelpersSource})
+}
+
+func decideCompileSrc(src string, extra map[string]string) (accepted bool, err error) {
 	g, stage, gerr := tc.Generate(src, "p.templ")
 	if gerr != nil {
 		if strings.Contains(gerr.Error(), "panic") {
@@ -79,7 +89,11 @@ func decideCompile(f *tgen.File) (accepted bool, err error) {
 		// template is not accepted, which the statement allows. Counted separately.
 		return false, nil
 	}
-	errs := tc.TypeCheck(map[string]string{"p_templ.go": g.Go, "helpers.go": tgen.HelpersSource})
+	files := map[string]string{"p_templ.go": g.Go}
+	for k, v := range extra {
+		files[k] = v
+	}
+	errs := tc.TypeCheck(files)
 	if tc.ImportProblem(errs) {
 		panic(fmt.Sprintf("harness: type checker cannot load dependencies: %v", errs))
 	}
@@ -240,6 +254,11 @@ func init() {
 		return decideRender(c)
 	})
 	ev.RegisterReplay("c02.compiles", func(raw json.RawMessage) error {
+		var sc SrcCase
+		if err := json.Unmarshal(raw, &sc); err == nil && sc.Source != "" {
+			_, err := decideCompileSrc(string(sc.Source), nil)
+			return err
+		}
 		var c Case
 		if err := json.Unmarshal(raw, &c); err != nil {
 			return err
@@ -269,6 +288,33 @@ func TestPropCompiles(t *testing.T) {
 			recCompile.Fail(t, Case{File: f}, "%v", err)
 		}
 	})
+}
+
+// TestPropLayouts: every member of the layout family (package oneline) that templ generate accepts
+// must yield Go that type-checks.
+func TestPropLayouts(t *testing.T) {
+	shard, shards := ev.Shard()
+	gaps := oneline.QuickGaps
+	if ev.Thorough() {
+		gaps = oneline.ThoroughGaps
+	}
+	n, acc := 0, 0
+	oneline.EachLayoutX(shard, shards, gaps, func(l oneline.Layout, varied, src string) {
+		if !oneline.SameTokens(l, varied) {
+			return // two words written without a blank between them: another program
+		}
+		n++
+		recCompile.Eval(1)
+		accepted, err := decideCompileSrc(src, nil)
+		if accepted {
+			acc++
+		}
+		if err != nil {
+			recCompile.Fail(t, SrcCase{Source: ev.QStr(src)}, "layout %s: %v", l.Name, err)
+		}
+	})
+	recCompile.ClassN("layout family (enumerated completely)", n)
+	recCompile.Enumerated(int64(acc))
 }
 
 // KnownHoistedClass: see known_findings.json.
